@@ -336,9 +336,38 @@ fn gen_case_c07(sub: u64, thorough: bool) -> Case {
         tree.roots.insert(at, "-".into());
         cfg.same_file_system = cfg.same_file_system || rng.chance(1, 2);
     }
+    // part D: symlinks to files, to directories and to ancestors (cycles), followed or not:
+    // whoever steals what, a cycle is cut exactly where the independent listing cuts it and
+    // nothing is handed out twice
+    let mut linked = false;
+    if rng.chance(1, 7) {
+        let dirs: Vec<String> = tree.nodes.iter().filter(|n| n.kind == NodeKind::Dir).map(|n| n.path.clone()).collect();
+        let all: Vec<String> = tree.nodes.iter().map(|n| n.path.clone()).collect();
+        for i in 0..1 + rng.below(3) {
+            if dirs.is_empty() {
+                break;
+            }
+            let parent = dirs[rng.below(dirs.len())].clone();
+            let target = if rng.chance(1, 2) {
+                // an ancestor of the link (or the directory holding it): a cycle
+                let mut anc = parent.clone();
+                for _ in 0..rng.below(3) {
+                    if let Some(j) = anc.rfind('/') {
+                        anc.truncate(j);
+                    }
+                }
+                anc
+            } else {
+                all[rng.below(all.len())].clone()
+            };
+            tree.nodes.push(Node { path: format!("{parent}/zl{i}"), kind: NodeKind::Link(target) });
+            linked = true;
+        }
+        cfg.follow_links = rng.chance(3, 4);
+    }
     let n_expected = tree.nodes.len() + tree.roots.len();
     let mut visitor = VisitorScript::default();
-    match rng.below(10) {
+    match rng.below(if linked { 8 } else { 10 }) {
         0..=4 => {} // part A: always continue
         5..=7 => {
             // part B: quit at some visit index, biased to the ends
@@ -375,10 +404,18 @@ fn gen_case_c07(sub: u64, thorough: bool) -> Case {
         stat_fault: None,
         opendir_fault: None,
     }
-    .with_faults(&mut rng)
+    .with_faults_unless(linked, &mut rng)
 }
 
 impl Case {
+    fn with_faults_unless(self, no: bool, rng: &mut Rng) -> Case {
+        if no {
+            self
+        } else {
+            self.with_faults(rng)
+        }
+    }
+
     fn with_faults(mut self, rng: &mut Rng) -> Case {
         if rng.chance(1, 8) {
             self.readdir_fault = (1, 6);
@@ -544,6 +581,18 @@ fn check_c07(case: &Case, base: &Path, r: &RunResult) -> Option<Verdict> {
     }
     if let Some(d) = &r.under_skipped {
         return Some(Verdict { class: "skip-ignored".into(), summary: format!("entry visited beneath a skipped directory: {d}") });
+    }
+    if case.tree.nodes.iter().any(|n| matches!(n.kind, NodeKind::Link(_))) {
+        // part D: entries are reached through links, so the plain expectation does not apply; the
+        // independent listing (which cuts cycles at the first repeated directory) does
+        if case.visitor.quit_at.is_none() && case.visitor.skip.is_empty() {
+            let model = multiset(&model_listing(base, &case.tree, &case.cfg));
+            if let Some(d) = diff_multisets(&multiset(&r.seen), &model, "parallel", "listing") {
+                let class = if r.seen.len() > model.values().sum::<usize>() { "duplicate" } else { "lost-entry" };
+                return Some(Verdict { class: format!("{class}:through-links"), summary: format!("the parallel walker differs from the independent listing: {d}") });
+            }
+        }
+        return None;
     }
     let mut expected = expected_plain(base, &case.tree, &case.visitor.skip);
     if let (Some(d), true) = (&case.stat_fault, r.stat_faults > 0 && case.tree.nodes.iter().any(|n| Some(&n.path) == case.stat_fault.as_ref() && n.kind == NodeKind::Dir)) {
@@ -1228,7 +1277,11 @@ fn main() {
             }
         }
     }
-    if mism > 0 {
+    if mism > 0 && !main.violations.is_empty() {
+        // a tree that already violates the property is judged by its violations (each with its own
+        // replay file); the self-test is a statement about the harness on a tree that holds
+        eprintln!("determinism self-test: {mism} re-executed runs differ; not a harness verdict because violations were found");
+    } else if mism > 0 {
         harness_error(&format!("determinism self-test failed: {mism} of {} re-executed runs differ", again.digests.len()));
     }
     rep.evaluations = main.evals + again.evals;
